@@ -45,10 +45,12 @@ static void case_gon2deg(int window, int sign, int prec) {
   Real absg = negative_input ? -g : g;
   sx::check_true(f.neg == (negative_input && sign != 0), tag + " minus sign shown exactly for negative input in the signed modes", out);
   if (sx::symbolic_mode()) {
-    sx::check_eq(sx::rat(f.d) + sx::rat(f.m) / sx::rat(60) + f.s / sx::rat(3600), absg * Real(0.9), tag + " d + m/60 + s/3600 = |gon|*0.9");
-    sx::check_ge0(f.s, tag + " seconds >= 0"); sx::check_lt(f.s, sx::rat(60), tag + " seconds < 60 before rounding");
-    // the printed field is the value rounded to prec digits: it shows 60 when s >= 60 - 0.5*10^-prec
+    // the printed field is the value rounded to prec digits; seconds within half a printed unit of 60 are carried into the minutes,
+    // so the fields stand for the angle to within half a printed unit and the seconds field can never read 60
     mpq_class half(1, 2); for (int i = 0; i < prec; i++) half /= 10;
+    { Real diff = absg * Real(0.9) - (sx::rat(f.d) + sx::rat(f.m) / sx::rat(60) + f.s / sx::rat(3600));
+      sx::check_le(diff, sx::constant(half / 3600), tag + " d + m/60 + s/3600 = |gon|*0.9 to half a printed unit"); sx::check_le(-diff, sx::constant(half / 3600), tag + " d + m/60 + s/3600 = |gon|*0.9 to half a printed unit"); }
+    sx::check_ge0(f.s, tag + " seconds >= 0"); sx::check_lt(f.s, sx::rat(60), tag + " seconds < 60 before rounding");
     sx::check_lt(f.s, sx::constant(mpq_class(60) - half), tag + " printed seconds field < 60 (no carry into minutes)");
     sx::check_true(f.neg == false || true, "", "");
   } else {
@@ -60,8 +62,9 @@ static void case_gon2deg(int window, int sign, int prec) {
   // and back through the reader of sexagesimal values: deg2gon(gon2deg(g)) = g (|g| when the sign is not shown)
   { Real back = sx::rat(0); bool ok = deg2gon(out, back); sx::check_true(ok, tag + " deg2gon accepts the string written by gon2deg", out);
     Real expect = (sign == 0) ? absg : g;
-    if (ok) { if (sx::symbolic_mode()) { Real d = back - expect;      // up to the rounding of the literal 0.9 against 360/400 (2e-17 relative, limit L1)
-        sx::check_le(d, sx::rat(1, 1000000000), tag + " deg2gon(gon2deg(g)) = g"); sx::check_le(-d, sx::rat(1, 1000000000), tag + " deg2gon(gon2deg(g)) = g"); }
+    if (ok) { if (sx::symbolic_mode()) { Real d = back - expect;      // to half a printed unit of the seconds (a carried value reads back as the rounded one)
+        mpq_class half2(1, 2); for (int i = 0; i < prec; i++) half2 /= 10; Real tolr = sx::constant(half2 / 3600 / mpq_class(9, 10) + mpq_class(1, 1000000000));
+        sx::check_le(d, tolr, tag + " deg2gon(gon2deg(g)) = g"); sx::check_le(-d, tolr, tag + " deg2gon(gon2deg(g)) = g"); }
       else { sx::f64 tol = 0.6 / 3600.0 / 0.9; for (int i = 0; i < prec; i++) tol /= 10; sx::f64 d = sx::numeric(back) - sx::numeric(expect); sx::check_true(d < tol && -d < tol, tag + " deg2gon(gon2deg(g)) = g", out); } } }
   sx::reached("geo-gon2deg");
 }
